@@ -1,4 +1,107 @@
-From Coq Require Import List.
-From Verif.Model Require Import Kafka.
-Theorem C19_frame : True.
-Proof. exact I. Qed.
+(* C19 — Kafka publication: one framed protobuf message per data record, in order.
+   This file holds only the property theorems; the proofs are in Proofs/{Proto,Kafka}_lemmas.v. *)
+From Coq Require Import List Bool Arith NArith ZArith String.
+From Coq.Strings Require Import Byte.
+From Verif.Base Require Import Bytes Outcome Str.
+From Verif.Gen Require Import Consts ProtoTab.
+From Verif.Model Require Import IE Proto Kafka.
+From Verif.Proofs Require Import Bytes_lemmas Proto_lemmas Kafka_lemmas.
+Import ListNotations.
+Local Open Scope N_scope.
+Local Notation length := List.length.
+
+(* obligations on the regenerated tables (T4 / T2): both converters' field tables are schemas the
+   model covers (uint32 / uint64 / string, increasing valid field numbers), the header fields and
+   every mapped field exist with a kind wide enough for the element kind, and the consumer strips
+   as many bytes as the producer prepends *)
+Example C19_tables_wf : wf_convertor conv1 = true /\ wf_convertor conv2 = true.
+Proof. split; vm_compute; reflexivity. Qed.
+Example C19_delimiter_matches_source : N.of_nat delimit_len = c_kafka_consumer_msgDelimitLen /\ delimit_len = 4%nat.
+Proof. split; reflexivity. Qed.
+
+(* (1) varint round trip, for ALL 64-bit values, whatever follows *)
+Theorem C19_varint : forall n rest, n < 18446744073709551616 ->
+  dec_varint (varint n ++ rest) = Some (n, rest).
+Proof. exact dec_varint_varint. Qed.
+Print Assumptions C19_varint.
+
+(* (2) framing: 4 bytes are prepended, they are the big-endian payload length (mod 2^32: a
+   payload below 4 GiB is announced exactly), and the consumer's slice recovers the payload *)
+Theorem C19_frame : forall p,
+  unframe (frame p) = Ok p /\ length (frame p) = (4 + length p)%nat /\
+  bed (firstn 4 (frame p)) = N.of_nat (length p) mod 4294967296.
+Proof. intros p. split; [apply unframe_frame|split; [apply frame_length|apply frame_prefix]]. Qed.
+Print Assumptions C19_frame.
+
+(* (3) protobuf round trip for every message of a covered schema whose values fit their Go types
+   and whose strings (of any length) are valid UTF-8: Marshal succeeds and Unmarshal of the bytes
+   gives back every field *)
+Theorem C19_proto_roundtrip : forall sch st, wf_schema sch = true -> wf_struct sch st = true ->
+  exists bs st', encode sch st = Some bs /\ decode sch bs = Some st' /\
+    forall k kd, In (k, kd) sch -> getf kd k st' = getf kd k st.
+Proof. exact proto_roundtrip. Qed.
+Print Assumptions C19_proto_roundtrip.
+
+(* (4) publication of any well-typed stream (no UTF-8 hypothesis): exactly the sends of the
+   records of the data messages, in message order then record order, none for template
+   messages, no panic; a record whose Marshal fails contributes nothing (this is F10) *)
+Theorem C19_publish_order : forall c topic ms, forallb (msg_well_typed c) ms = true ->
+  publish c topic ms = (flat_map (fun mr => sent c topic (fst mr) (snd mr)) (all_records ms), false).
+Proof. exact publish_spec. Qed.
+Print Assumptions C19_publish_order.
+
+(* (5) the property. For every stream of template/data messages whose elements are well typed and
+   whose strings are valid UTF-8 (the hypothesis the proof surfaces, finding F10): the producer
+   emits, on the configured topic, exactly one Kafka message per data record, in order (Forall2
+   against the list of all (message, record) pairs), each value being frame p for a payload p
+   that decodes to the record's values and the message's export time / sequence number /
+   observation domain / exporter address (expected_field) *)
+Theorem C19_kafka : forall c topic ms,
+  wf_convertor c = true -> stream_typed c ms = true -> stream_utf8 ms = true ->
+  exists payloads,
+    publish c topic ms = (map (fun p => (topic, frame p)) payloads, false) /\
+    Forall2 (decodes_to c) (all_records ms) payloads.
+Proof. exact kafka_publication. Qed.
+Print Assumptions C19_kafka.
+
+Theorem C19_count : forall c topic ms,
+  wf_convertor c = true -> stream_typed c ms = true -> stream_utf8 ms = true ->
+  length (fst (publish c topic ms)) = list_sum (map (fun m => length (records_of m)) ms) /\
+  snd (publish c topic ms) = false /\
+  forall km, In km (fst (publish c topic ms)) -> fst km = topic.
+Proof. exact kafka_count. Qed.
+Print Assumptions C19_count.
+
+(* what a field must hold, spelled out: the converter's result on a well-typed record *)
+Theorem C19_convert : forall c m r, well_typed_record c r = true ->
+  exists st, convert c m r = Ok st /\ forall kd k, getf kd k st = expected_field c m r kd k.
+Proof. exact convert_spec. Qed.
+Print Assumptions C19_convert.
+
+(* the UTF-8 hypothesis is necessary: the faithful model drops the record (finding F10) *)
+Local Open Scope string_scope.
+Definition ex_bad : kmsg :=
+  mkKMsg 1 2 3 [] (KData [[mkElem "sourcePodName" (VStr [xff]) []]]).
+Example C19_utf8_needed :
+  stream_typed conv1 [ex_bad] = true /\ stream_utf8 [ex_bad] = false /\
+  publish conv1 "flows" [ex_bad] = ([], false) /\ List.length (all_records [ex_bad]) = 1%nat.
+Proof. vm_compute. repeat split. Qed.
+
+(* non-vacuity: a two-message stream (template, then data with two records, IPv4 and IPv6) satisfies the hypotheses *)
+Definition ex_rec1 : krecord :=
+  [mkElem "sourceIPv4Address" (VIP (Some [x0a; x00; x00; x01])) (bytes_of_string "10.0.0.1");
+   mkElem "octetDeltaCount" (VU64 18446744073709551615) [];
+   mkElem "sourcePodName" (VStr (bytes_of_string "pod-1")) [];
+   mkElem "flowEndReason" (VU8 2) []].
+Definition ex_rec2 : krecord :=
+  [mkElem "destinationTransportPort" (VU16 443) []; mkElem "destinationTransportPort" (VU16 80) []].
+Definition ex_stream : list kmsg :=
+  [mkKMsg 5 6 7 (bytes_of_string "127.0.0.1") (KTemplate 1);
+   mkKMsg 1000 4294967295 7 (bytes_of_string "127.0.0.1") (KData [ex_rec1; ex_rec2])].
+Example C19_nonvacuous :
+  stream_typed conv2 ex_stream = true /\ stream_utf8 ex_stream = true /\
+  List.length (fst (publish conv2 "flows" ex_stream)) = 2%nat /\
+  expected_field conv2 (nth 1 ex_stream ex_bad) ex_rec2 KU32 9 = PU 80 /\
+  expected_field conv2 (nth 1 ex_stream ex_bad) ex_rec1 KU32 2 = PU 4294967295 /\
+  expected_field conv2 (nth 1 ex_stream ex_bad) ex_rec1 KU64 14 = PU 18446744073709551615.
+Proof. vm_compute. repeat split. Qed.
